@@ -44,10 +44,11 @@ def native_contract_module(modname):
     return importlib.import_module(modname)
 
 
-def native_run(modname, proofname, inputs, sources=None, timeout=120):
+def native_run(modname, proofname, inputs, sources=None, timeout=600,
+               seed=None):
     """Replay in a subprocess (isolation from patches and module state)."""
     req = {'module': modname, 'proof': proofname, 'inputs': inputs,
-           'repo': REPO, 'sources': sources or {}}
+           'repo': REPO, 'sources': sources or {}, 'seed': seed}
     try:
         r = subprocess.run([sys.executable, '-m', 'pyvc.replay', '--stdin'],
                            input=json.dumps(req), capture_output=True,
@@ -82,8 +83,8 @@ def _sample_job(args):
         key = hashlib.sha1(json.dumps(out['drawn'], sort_keys=True,
                                       default=str).encode()).hexdigest()
         distinct.add(key)
-        for nm, ok in out['checks']:
-            check_counts[nm] = check_counts.get(nm, 0) + 1
+        for nm, k in out['counts'].items():
+            check_counts[nm] = check_counts.get(nm, 0) + k
         for nm in out['failed']:
             failures.setdefault(nm, out['drawn'])
         if out['exception'] is not None:
@@ -95,6 +96,23 @@ def _sample_job(args):
             'exceptions': {k: {'inputs': v[0], 'exception': v[1]}
                            for k, v in exceptions.items()},
             'checks_evaluated': check_counts,
+            'wall_s': round(time.time() - t0, 2)}
+
+
+def _bounded_job(args):
+    modname, proofname, seed, tier = args
+    os.environ['VERIF_TIER_EFFECTIVE'] = tier
+    from . import api
+    t0 = time.time()
+    out = api.run_native(modname, proofname, rng=random.Random(seed),
+                         repo=REPO)
+    return {'module': modname, 'proof': proofname, 'seed': seed,
+            'evaluations': sum(out['counts'].values()),
+            'distinct_checks': len(out['counts']),
+            'counts': out['counts'], 'nfailed': out['nfailed'],
+            'first_fail': out['first_fail'], 'exception': out['exception'],
+            'fail_details': out['fail_details'],
+            'bound': out.get('bound', ''),
             'wall_s': round(time.time() - t0, 2)}
 
 
@@ -263,8 +281,13 @@ def check_property(prop, tier='quick', seed=0):
         s = int(hashlib.sha1(('%s/%s/%d' % (r['module'], r['proof'], seed))
                              .encode()).hexdigest()[:8], 16)
         jobs.append((r['module'], r['proof'], s, n_samples, budget))
-    with ProcessPoolExecutor(max_workers=min(16, max(1, len(jobs)))) as pool:
-        samples = list(pool.map(_sample_job, jobs))
+    btasks = R.property_tasks(prop, opts, kind='bounded')
+    bjobs = [(t[0], t[1], seed, tier) for t in btasks]
+    with ProcessPoolExecutor(max_workers=16) as pool:
+        sf = [pool.submit(_sample_job, j) for j in jobs]
+        bf = [pool.submit(_bounded_job, j) for j in bjobs]
+        samples = [f.result() for f in sf]
+        bruns = [f.result() for f in bf]
 
     # ------------------------------------------------------------ verdicts
     def known_match(ob_id):
@@ -347,6 +370,43 @@ def check_property(prop, tier='quick', seed=0):
                 payload['engine_disagreement'] = (
                     'the proof tier discharged this obligation but a real '
                     'execution violates it: engine or encoding unsound here')
+            p = write_replay(prop, ob_id, payload)
+            rep.violations.append((ob_id, p, True))
+
+    for b in bruns:
+        bounded_rows.append({
+            'module': b['module'], 'proof': b['proof'], 'kind': 'bounded '
+            'family (enumerated by the contract script itself)',
+            'bound': b['bound'], 'evaluations': b['evaluations'],
+            'feasible': b['evaluations'],
+            'distinct': b['distinct_checks'], 'wall_s': b['wall_s'],
+            'checks': b['counts']})
+        fails = dict((nm, b['first_fail'].get(nm)) for nm in b['nfailed'])
+        if b['exception'] is not None:
+            fails['no-unexpected-exception'] = json.dumps(b['exception'])
+        for nm, detail in fails.items():
+            if not tagged_for(nm, prop):
+                continue
+            ob_id = '%s/%s/%s' % (prop, b['proof'], nm)
+            if ob_id in handled:
+                continue
+            handled.add(ob_id)
+            k = known_match(ob_id)
+            details = b['fail_details'].get(nm, [detail])
+            if k is not None and len(details) < 50 and all(
+                    d in k.get('cases', []) for d in details):
+                rep.known.append((ob_id, k['what']))
+                continue
+            if k is not None:
+                new = [d for d in details if d not in k.get('cases', [])]
+                detail = new[0] if new else detail
+            payload = {'property': prop, 'obligation': ob_id,
+                       'module': b['module'], 'proof': b['proof'],
+                       'inputs': {}, 'seed': b['seed'],
+                       'failing_case': detail,
+                       'failures_of_this_check': b['nfailed'].get(nm),
+                       'found_by': 'bounded family (native execution)',
+                       'reproduced': True, 'repo': REPO}
             p = write_replay(prop, ob_id, payload)
             rep.violations.append((ob_id, p, True))
 
@@ -448,7 +508,8 @@ def _z3_version():
 def replay_file(path):
     with open(path) as f:
         d = json.load(f)
-    nr = native_run(d['module'], d['proof'], d.get('inputs', {}))
+    nr = native_run(d['module'], d['proof'], d.get('inputs', {}),
+                    seed=d.get('seed'))
     short = d['obligation'].split('/', 2)[-1]
     failed = nr.get('failed') or []
     bad = short in failed or (short == 'no-unexpected-exception'
